@@ -127,8 +127,10 @@ static void resolve_shared_remove (int owner, long ret, const long *probe, const
 /* end of a sweep: of the entries flagged `maybe`, exactly `owed` must not have fired */
 static void settle_maybe (void) {
   int left = 0;
-  for (int i = 0; i < nM; i++) if (maybe[i] && M[i].pending && M[i].due <= T) left++;
-  if (left != owed) fail_hist ("C10:remove-by-name-removed-wrong-number", "%d by-name removals inside the sweep, but %d of the overdue candidates did not fire", owed, left);
+  for (int i = 0; i < nM; i++) if (maybe[i] && !M[i].fired && M[i].due <= T) left++;   /* (a later remove by handle may have cleared `pending`) */
+  /* each deferred removal either took one of the flagged entries or - when an earlier one had already taken them -
+     found nothing: at least one and at most `owed` of them must be gone */
+  if (owed && (left < 1 || left > owed)) fail_hist ("C10:remove-by-name-removed-wrong-number", "%d by-name removals inside the sweep, but %d of the overdue candidates did not fire", owed, left);
   for (int i = 0; i < nM; i++) { if (maybe[i] && M[i].pending && M[i].due <= T) M[i].pending = 0; maybe[i] = 0; }
   owed = 0;
 }
@@ -202,17 +204,18 @@ static void process_log (int in_tick) {
     } else if (!strcmp (what, "cb-rmh") || !strcmp (what, "cb-rmn")) {
       int id = (int) e->item[1].u.number; long ret = (long) e->item[2].u.number;
       vx_obs ("  %s #%d -> %ld", what, id, ret);
+      if (shared && !strcmp (what, "cb-rmn")) {
+        /* shared-name mode: the removal acts on the CALLER's one name, whatever entry the script pointed at */
+        long probe[MAXE]; for (int j = 0; j < MAXE; j++) probe[j] = -1;
+        if (e->size > 3 && e->item[3].type == T_ARRAY)
+          for (int j = 0; j < e->item[3].u.arr->size && j < MAXE; j++) probe[j] = (long) e->item[3].u.arr->item[j].u.number;
+        if (!(cb_owner == 1 && !B_alive)) resolve_shared_remove (cb_owner, ret, probe, "C10:remove-in-callback-wrong-time");
+        continue;
+      }
       if (id >= 0 && id < nM && !(M[id].owner == 1 && !B_alive)) {   /* entries of a destructed owner are not probed */
         ent *m = &M[id];
         /* by name: only the caller's own string-named call_outs can be found */
         int byname = !strcmp (what, "cb-rmn");
-        if (byname && shared) {
-          long probe[MAXE]; for (int j = 0; j < MAXE; j++) probe[j] = -1;
-          if (e->size > 3 && e->item[3].type == T_ARRAY)
-            for (int j = 0; j < e->item[3].u.arr->size && j < MAXE; j++) probe[j] = (long) e->item[3].u.arr->item[j].u.number;
-          resolve_shared_remove (cb_owner, ret, probe, "C10:remove-in-callback-wrong-time");
-          continue;
-        }
         int findable = m->pending && !(byname && (m->fp || m->owner != cb_owner));
         long want = findable ? m->due - T : -1;
         if (ret != want) fail_hist ("C10:remove-in-callback-wrong-time", "%s(#%d) inside a callback returned %ld, expected %ld", what, id, ret, want);
@@ -251,14 +254,16 @@ static void do_tick (long s, int hbco_d) {
     fail_hist ("C10:error-escaped-call_out", "an error escaped call_out() to the backend level");
   } else {
     eval_cost = CONFIG_INT (__MAX_EVAL_COST__);
-    call_out ();
+    static int skipped;
+    if (selftest == 1 && !skipped) skipped = 1;   /* self-test: the environment loses one sweep */
+    else call_out ();
   }
   pop_context (&econ);
   process_log (1);
   if (shared) settle_maybe ();
   /* everything due must have fired */
   for (int i = 0; i < nM; i++)
-    if (M[i].pending && M[i].due <= T && !(selftest == 1 && i == 0))
+    if (M[i].pending && M[i].due <= T)
       fail_hist ("C10:not-fired-on-time", "#%d due %ld still pending after tick at %ld (delay class: due-issue crosses wheel)", i, M[i].due, T);
   svalue_t *errs1 = safe_apply_master_ob ("query_errors", 0);
   int nerr1 = (errs1 && errs1 != (svalue_t *) -1 && errs1->type == T_ARRAY) ? errs1->u.arr->size : 0;
